@@ -120,6 +120,9 @@ class PanicScan:
                         # an accumulation (`acc * 10 + d`) in a loop whose trip count is capped by a length test against a constant before the
                         # loop: whether the cap keeps the value in range is a question about runtime values - not decided (a loop with NO such cap
                         # stays a finding: any long enough input overflows)
+                        if src and self._value_guarded(b, bi, src[-1]):
+                            undecided.append({"body": b, "pos": (bi, len(blk.stmts)), "construct": "assert:Overflow of `%s` on a value that a test on the way restricts (%s): whether the restriction excludes the overflow is a question about runtime values" % (src[-1].rv["op"].replace("WithOverflow", ""), self._value_guarded(b, bi, src[-1])), "line": t.line})
+                            continue
                         if src and src[-1].rv["op"].startswith(("Add", "Mul")) and self._capped_loop(b, bi):
                             undecided.append({"body": b, "pos": (bi, len(blk.stmts)), "construct": "assert:Overflow of an accumulation in a loop whose trip count is capped by a constant (value range not computed)", "line": t.line})
                             continue
@@ -150,6 +153,54 @@ class PanicScan:
                     undecided.append({"body": b, "pos": (bi, len(blk.stmts)), "construct": unknown, "line": t.line})
         stats = {"reachable_bodies": len(reach), "calls": n_calls, "asserts": n_asserts, "exempted": exempted}
         return findings, undecided, stats
+
+    def _value_guarded(self, b, bi, st):
+        """the arithmetic whose overflow check sits in block bi works on a value that is TESTED on the way: (Sub) a predicate / comparison on the
+        minuend's variable dominates the block (`if !byte.is_ascii_digit() { return }; byte - b'0'`); (Add / Mul in a loop) the accumulator's variable
+        is compared with something inside the same loop with a way out (`if number > MAX { return }`).  Returns a description or None."""
+        from prov import Prov
+        if not hasattr(self, "_pvn"):
+            self._pvn = Prov(self.prog, inline=False)
+        pvn = self._pvn
+        op = st.rv["op"]
+
+        def roots(o):
+            return user_root_locals(b, pvn, o) if o.place is not None else set()
+        if op.startswith("Sub"):
+            rs = roots(st.rv["l"])
+            if not rs:
+                return None
+            for sb in sorted(b.reach):
+                x = b.blocks[sb].term
+                if x.k != "switch" or not any(b.edge_dominates((sb, tg), bi) for tg in x.successors()):
+                    continue
+                for a in pvn.of_operand(b, x.discr):
+                    if a[0] == "call" and a[3] == b.id:
+                        ct = b.blocks[a[4]].term
+                        if any(roots(arg) & rs for arg in ct.args):
+                            return "`%s` on `%s`" % (ct.callee.method, "/".join(b.local_name(r) for r in sorted(rs)))
+                ds = pvn.defs(b).get(x.discr.place.local, []) if x.discr.place is not None else []
+                for k_, p_, d_ in ds:
+                    if k_ == "assign" and d_.rv["k"] == "bin" and d_.rv["op"] in ("Lt", "Le", "Gt", "Ge", "Eq", "Ne") and (roots(d_.rv["l"]) | roots(d_.rv["r"])) & rs:
+                        return "a comparison of `%s`" % "/".join(b.local_name(r) for r in sorted(rs))
+            return None
+        if op.startswith(("Add", "Mul")):
+            lp = b.loop_of(bi)
+            if not lp:
+                return None
+            rs = roots(st.rv["l"]) | roots(st.rv["r"])
+            # the variable the result is stored into
+            for (pb, _i), s2 in b.stmts():
+                if pb in lp[1] and s2.k == "assign" and s2.place.is_local() and s2.place.local in b.debug and s2.rv["k"] == "use" and s2.rv["op"].place is not None:
+                    rs |= {s2.place.local} if s2.place.local in rs or True else set()
+            acc = {r for r in rs if any(pb in lp[1] and s2.k == "assign" and s2.place.is_local() and s2.place.local == r for (pb, _i), s2 in b.stmts())}
+            for (pb, _i), s2 in b.stmts():
+                if pb in lp[1] and s2.k == "assign" and s2.rv["k"] == "bin" and s2.rv["op"] in ("Lt", "Le", "Gt", "Ge") and (roots(s2.rv["l"]) | roots(s2.rv["r"])) & acc:
+                    # ... with a way out of the loop under it
+                    if any(y not in lp[1] for x2 in lp[1] for y in b.succ[x2] if b.dominates(pb, x2)):
+                        return "a comparison of the accumulator `%s` inside the loop" % "/".join(b.local_name(r) for r in sorted(acc & (roots(s2.rv["l"]) | roots(s2.rv["r"]))))
+            return None
+        return None
 
     def _capped_loop(self, b, bi):
         lp = b.loop_of(bi)
@@ -1133,11 +1184,57 @@ def kernel(prog, body, ignore_callees=()):
     return {"callees": frozenset(callees), "adaptors": tuple(sorted(adaptors)), "not_parity": nots % 2, "consts": frozenset(consts)}
 
 
-def split_columns(body, pv):
-    """`next()` / `nth(k)` calls on a str split iterator, numbered by dominance: {bb: column index}"""
+def column_taker(prog, g):
+    """index (1-based) of the parameter of the loop-free crate function `g` that is an iterator from which `g` takes exactly ONE item on every
+    path (`fn next_column(cols: &mut impl Iterator<Item = &str>, ..) -> Result<&str, _> { cols.next().ok_or_else(..) }`), else None"""
+    if g is None or g.kind not in ("Fn", "AssocFn") or g.natural_loops():
+        return None
+    nx = [(bi, t) for bi, t in g.calls() if t.callee.method == "next" and t.callee.trait == "std::iter::Iterator" and t.args and t.args[0].place is not None]
+    if len(nx) != 1 or any(t.callee.method in ("nth", "skip", "take", "last", "count") for _, t in g.calls()):
+        return None
+    bi, t = nx[0]
+    if not all(g.dominates(bi, e) for e in g.exits):
+        return None
+    l, seen = t.args[0].place.local, set()
+    while l not in seen:
+        seen.add(l)
+        if 1 <= l <= g.nargs:
+            return l
+        ds = [st for _, st in g.stmts() if st.k == "assign" and st.place.is_local() and st.place.local == l]
+        if len(ds) != 1 or ds[0].rv["k"] not in ("ref", "use"):
+            return None
+        pl = ds[0].rv["place"] if ds[0].rv["k"] == "ref" else ds[0].rv["op"].place
+        if pl is None:
+            return None
+        l = pl.local
+    return None
+
+
+def split_columns(body, pv, prog=None):
+    """`next()` / `nth(k)` calls on a str split iterator, numbered by dominance: {bb: column index}.  With `prog`, a call of a crate helper that
+    takes exactly one item from the iterator it is handed (`column_taker`) counts as a `next()`."""
     nexts = []
     for bi, t in body.calls():
         c = t.callee
+        taker = column_taker(prog, prog.bodies.get(c.res)) if prog is not None and c.res and c.res in prog.bodies else None
+        if taker is not None and taker - 1 < len(t.args) and t.args[taker - 1].place is not None:
+            l = t.args[taker - 1].place.local
+            seen = set()
+            while l not in seen:
+                seen.add(l)
+                ds = pv.defs(body).get(l, [])
+                if len(ds) == 1 and ds[0][0] == "assign" and ds[0][2].rv["k"] in ("ref", "use"):
+                    rv = ds[0][2].rv
+                    pl = rv["place"] if rv["k"] == "ref" else rv["op"].place
+                    if pl is None:
+                        break
+                    l = pl.local
+                else:
+                    break
+            # only iterators that are a str split (the root local's type says so)
+            if re.search(r"str::(Split|SplitN|SplitWhitespace|RSplit)", body.locals[l]["s"] if l < len(body.locals) else ""):
+                nexts.append((bi, l, 0))
+            continue
         if c.method in ("next", "nth") and c.trait == "std::iter::Iterator" and re.search(r"std::str::(Split|SplitN|SplitWhitespace|RSplit)", c.def_args or ""):
             root = None
             if t.args and t.args[0].place is not None:
@@ -1173,7 +1270,7 @@ def split_columns(body, pv):
 
 def columns_of(body, atoms, cols):
     """column indices a value was read from (call atoms of numbered next() / nth() calls in `body`)"""
-    return {cols[a[4]] for a in atoms if a[0] == "call" and a[3] == body.id and a[4] in cols and (a[1].endswith("::next") or a[1].endswith("::nth"))}
+    return {cols[a[4]] for a in atoms if a[0] == "call" and a[3] == body.id and a[4] in cols and (a[1].endswith("::next") or a[1].endswith("::nth") or body.blocks[a[4]].term.callee.method not in ("next", "nth"))}
 
 
 def user_root_locals(body, pv, op, stop=None):
@@ -1716,6 +1813,29 @@ def check_required_steps(ck, rule, prog, body, steps):
                     some = [tg for v, tg in sw.targets if v == 1]
                     if some and any(body.edge_dominates((nt.target, some[0]), hb_) for hb_ in list(blocks)):
                         blocks.add(nbi)
+        # a step that sits in a loop runs zero times for an empty collection anyway: a way out that is taken only when a LENGTH is zero
+        # (`if rows * cols == 0 { return .. }`, `if xs.is_empty() { return .. }`) skips nothing.  The zero branch counts as the step's site when it
+        # is a block of its own.
+        if any(h in blocks for h in loops):
+            # ... of the collection(s) those loops walk: the tested length and the loop's iterator share a parameter / field
+            roots_ = lambda atoms: {(a[0], a[1], a[2]) for a in atoms if a[0] in ("param", "field")}
+            loop_roots = set()
+            for h, bl in loops.items():
+                if h in blocks:
+                    for x_ in bl:
+                        nt_ = body.blocks[x_].term
+                        if nt_.k == "call" and nt_.callee.method == "next" and nt_.callee.trait == "std::iter::Iterator" and nt_.args:
+                            loop_roots |= roots_(pv_.of_operand(body, nt_.args[0]))
+            is_len = lambda atoms: any(a[0] == "call" and a[1].rsplit("::", 1)[-1] in ("len", "count") for a in atoms) and bool(roots_(atoms) & loop_roots)
+            for z in zero_test_edges(body, pv_, is_len):
+                for (sb_, tg_) in z["zero_edges"]:
+                    if len([p_ for p_ in body.pred[tg_] if p_ in body.reach]) == 1:
+                        blocks.add(tg_)
+            for ebi, et in body.calls():
+                if et.callee.method == "is_empty" and len(et.args) == 1 and roots_(pv_.of_operand(body, et.args[0])) & loop_roots:
+                    for (sb_, tg_) in positive_edges(body, pv_, ebi):
+                        if len([p_ for p_ in body.pred[tg_] if p_ in body.reach]) == 1:
+                            blocks.add(tg_)
         skip = success_path_avoiding(body, blocks)
         ck.ob(rule, "required-step/%s/%s" % (body.short, label), not skip, "%s %s" % (body.short, ("performs `%s` on every path that succeeds" % label) if not skip else ("can return successfully WITHOUT `%s` (an early return or a guard skips it)" % label)), where=body.where())
 
@@ -2833,4 +2953,249 @@ def check_name_table(ck, rule, label, body, enum_rx, pv=None, floor=0):
         ck.ob(rule, "%s/%s" % (label, lit), ok, "the name %r selects %s%s" % (lit, "/".join(sorted(vs)), "" if ok else ": not the variant that name stands for"), where=body.where())
     if floor:
         ck.floor(rule, "%s names" % label, n, floor)
+    return n
+
+
+# =====================================================================================================
+# ZIPLEN: `a.zip(b)` ends with the shorter side - lengths as affine expressions over collection lengths
+# =====================================================================================================
+class LenEval:
+    """Affine lengths (dict: symbol -> coefficient, () = constant) of integer operands and of collections / slices / ranges / iterators, over
+    symbols ("len", <field path from `self`>).  Follows single definitions, `len()`, slicing by constant-offset ranges, the transparent
+    adaptors (iter / into_iter / deref / as_slice) and loop-free crate accessors that are handed `self` unchanged.  None = not computable."""
+    TRANSPARENT = {"iter", "into_iter", "deref", "as_slice", "as_ref", "borrow", "by_ref", "as_mut_slice", "iter_mut", "deref_mut", "copied", "cloned", "rev", "enumerate", "map", "inspect"}
+
+    def __init__(self, prog):
+        self.prog = prog
+
+    @staticmethod
+    def _comb(a, b, sign):
+        if a is None or b is None:
+            return None
+        out = dict(a)
+        for k, v in b.items():
+            out[k] = out.get(k, 0) + sign * v
+            if out[k] == 0:
+                del out[k]
+        return out
+
+    def _defs(self, body):
+        d = getattr(body, "_lendefs", None)
+        if d is None:
+            d = {}
+            for pos, st in body.stmts():
+                if st.k == "assign" and st.place.is_local():
+                    d.setdefault(st.place.local, []).append(("assign", st))
+            for bi, t in body.calls():
+                if t.dest is not None and t.dest.is_local():
+                    d.setdefault(t.dest.local, []).append(("call", t))
+            body._lendefs = d
+        return d
+
+    def _self_passed(self, body, op):
+        """the operand is `self` of `body` handed on unchanged (`&*self`, `self`)"""
+        if op.place is None:
+            return False
+        l, seen = op.place.local, set()
+        if [e for e in op.place.fields() if e != "*"]:
+            return False
+        while l not in seen:
+            seen.add(l)
+            if l == 1:
+                return True
+            ds = self._defs(body).get(l, [])
+            if len(ds) != 1 or ds[0][0] != "assign":
+                return False
+            rv = ds[0][1].rv
+            if rv["k"] == "ref" and not [e for e in rv["place"].fields() if e != "*"]:
+                l = rv["place"].local
+            elif rv["k"] == "use" and rv["op"].place is not None and not [e for e in rv["op"].place.fields() if e != "*"]:
+                l = rv["op"].place.local
+            else:
+                return False
+        return False
+
+    def _ret(self, callee):
+        """operand-like view of what a loop-free crate function returns: ('op', operand) | ('call', term) | None"""
+        outs = []
+        for pos, st in callee.stmts():
+            if st.k == "assign" and st.place.is_local() and st.place.local == 0:
+                outs.append(("assign", st))
+        for bi, t in callee.calls():
+            if t.dest is not None and t.dest.is_local() and t.dest.local == 0:
+                outs.append(("call", t))
+        return outs[0] if len(outs) == 1 else None
+
+    def usize(self, body, op, depth=0):
+        if depth > 25:
+            return None
+        if op.kind == "const":
+            v = op.int_value()
+            return ({(): v} if v else {}) if v is not None else None
+        if op.place is None:
+            return None
+        es = [e for e in op.place.fields() if e != "*"]
+        ds = self._defs(body).get(op.place.local, [])
+        if len(ds) != 1:
+            return None
+        kind, d = ds[0]
+        if es:
+            # `.0` of a checked add / sub
+            if len(es) == 1 and es[0][0] == "f" and es[0][1] == "0" and kind == "assign" and d.rv["k"] == "bin" and d.rv["op"].endswith("WithOverflow"):
+                return self._bin(body, d.rv, depth)
+            return None
+        if kind == "assign":
+            return self._rv_usize(body, d.rv, depth)
+        return self._call_usize(body, d, depth)
+
+    def _bin(self, body, rv, depth):
+        o = rv["op"].replace("WithOverflow", "").replace("Unchecked", "")
+        if o in ("Add", "Sub"):
+            return self._comb(self.usize(body, rv["l"], depth + 1), self.usize(body, rv["r"], depth + 1), 1 if o == "Add" else -1)
+        return None
+
+    def _rv_usize(self, body, rv, depth):
+        if rv["k"] in ("use", "cast"):
+            return self.usize(body, rv["op"], depth + 1)
+        if rv["k"] == "bin":
+            return self._bin(body, rv, depth)
+        if rv["k"] == "un" and rv["op"] == "PtrMetadata":
+            return self.length(body, rv["o"], depth + 1)
+        return None
+
+    def _call_usize(self, body, t, depth):
+        c = t.callee
+        if c.method == "len" and len(t.args) == 1 and not (c.res and c.res in self.prog.bodies):
+            return self.length(body, t.args[0], depth + 1)
+        g = self.prog.bodies.get(c.res) if c.res else None
+        if g is not None and g.kind in ("Fn", "AssocFn") and not g.natural_loops() and len(t.args) == 1 and g.nargs == 1 and self._self_passed(body, t.args[0]) and body.nargs >= 1:
+            r = self._ret(g)
+            if r is not None:
+                return self._rv_usize(g, r[1].rv, depth + 1) if r[0] == "assign" else self._call_usize(g, r[1], depth + 1)
+        return None
+
+    def length(self, body, op, depth=0):
+        """number of elements of the collection / slice / range / iterator the operand is (or refers to)"""
+        if depth > 25 or op.place is None:
+            return None
+        es = [e for e in op.place.fields() if e != "*"]
+        if op.place.local == 1 and es and all(e[0] == "f" for e in es):
+            return {("len", tuple(e[1] for e in es)): 1}
+        if es:
+            return None
+        ds = self._defs(body).get(op.place.local, [])
+        if len(ds) != 1:
+            return None
+        kind, d = ds[0]
+        if kind == "assign":
+            rv = d.rv
+            if rv["k"] in ("use", "cast"):
+                return self.length(body, rv["op"], depth + 1)
+            if rv["k"] in ("ref", "rawptr"):
+                pes = [e for e in rv["place"].fields() if e != "*"]
+                if rv["place"].local == 1 and pes and all(e[0] == "f" for e in pes):
+                    return {("len", tuple(e[1] for e in pes)): 1}
+                if not pes:
+                    class _O:  # operand view of a bare local
+                        pass
+                    o = _O()
+                    o.kind, o.place, o.const = "copy", type(rv["place"])({"l": rv["place"].local, "p": []}), None
+                    return self.length(body, o, depth + 1)
+                return None
+            if rv["k"] == "agg" and re.search(r"::Range(Inclusive)?$", rv.get("adt", "")) and len(rv["ops"]) == 2:
+                n = self._comb(self.usize(body, rv["ops"][1], depth + 1), self.usize(body, rv["ops"][0], depth + 1), -1)
+                return self._comb(n, {(): 1}, 1) if n is not None and rv["adt"].endswith("Inclusive") else n
+            return None
+        t = d
+        c = t.callee
+        if c.trait == "std::ops::Index" and len(t.args) == 2 and "Range" in (c.def_args or ""):
+            base = self.length(body, t.args[0], depth + 1)
+            rds = self._defs(body).get(t.args[1].place.local, []) if t.args[1].place is not None else []
+            if len(rds) == 1 and rds[0][0] == "assign" and rds[0][1].rv["k"] == "agg":
+                rv = rds[0][1].rv
+                adt = rv.get("adt", "")
+                if adt.endswith("::RangeFrom") and len(rv["ops"]) == 1:
+                    return self._comb(base, self.usize(body, rv["ops"][0], depth + 1), -1)
+                if adt.endswith("::Range") and len(rv["ops"]) == 2:
+                    return self._comb(self.usize(body, rv["ops"][1], depth + 1), self.usize(body, rv["ops"][0], depth + 1), -1)
+                if adt.endswith("::RangeTo") and len(rv["ops"]) == 1:
+                    return self.usize(body, rv["ops"][0], depth + 1)
+            return None
+        g = self.prog.bodies.get(c.res) if c.res else None
+        if g is not None and g.kind in ("Fn", "AssocFn"):
+            if not g.natural_loops() and len(t.args) == 1 and g.nargs == 1 and self._self_passed(body, t.args[0]):
+                r = self._ret(g)
+                if r is not None:
+                    if r[0] == "call":
+                        class _T:
+                            pass
+                        # the callee's result is itself a call result: evaluate that call inside the callee
+                        return self._call_len(g, r[1], depth + 1)
+                    rv = r[1].rv
+                    if rv["k"] in ("use", "cast"):
+                        return self.length(g, rv["op"], depth + 1)
+                    if rv["k"] == "ref":
+                        pes = [e for e in rv["place"].fields() if e != "*"]
+                        if rv["place"].local == 1 and pes and all(e[0] == "f" for e in pes):
+                            return {("len", tuple(e[1] for e in pes)): 1}
+                        if not pes:
+                            class _O2:
+                                pass
+                            o2 = _O2()
+                            o2.kind, o2.const, o2.place = "copy", None, type(rv["place"])({"l": rv["place"].local, "p": []})
+                            return self.length(g, o2, depth + 1)
+            return None
+        if c.method in self.TRANSPARENT and t.args:
+            return self.length(body, t.args[0], depth + 1)
+        return None
+
+    def _call_len(self, body, t, depth):
+        """length of the value a call returns (a call terminator of `body`)"""
+        class _O:
+            pass
+        if t.dest is None or not t.dest.is_local():
+            return None
+        # reuse `length` on the destination local: it has this call as its single definition
+        o = _O()
+        o.kind, o.const = "copy", None
+        o.place = t.dest
+        return self.length(body, o, depth)
+
+
+def fmt_len(a):
+    if a is None:
+        return "?"
+    parts = []
+    for k in sorted(a, key=str):
+        if k == ():
+            continue
+        nm = "len(self.%s)" % ".".join(k[1])
+        parts.append(nm if a[k] == 1 else "%d*%s" % (a[k], nm))
+    c = a.get((), 0)
+    s = " + ".join(parts) if parts else ""
+    if c or not s:
+        s = (s + (" + " if c > 0 and s else " - " if c < 0 and s else "") + str(abs(c) if s else c))
+    return s
+
+
+def check_zip_lengths(ck, rule, prog, bodies, what):
+    """`a.zip(b)` silently ends with the shorter side.  Where both lengths are affine in the same collection lengths and differ by a constant,
+    elements of the longer side are dropped: a violation when the zip drives a loop / fold that is meant to visit every element."""
+    le = LenEval(prog)
+    n = 0
+    for b in bodies:
+        for bi, t in b.calls():
+            if t.callee.method != "zip" or t.callee.trait != "std::iter::Iterator" or len(t.args) != 2:
+                continue
+            la, lb = le.length(b, t.args[0]), le.length(b, t.args[1])
+            if la is None or lb is None:
+                continue
+            n += 1
+            diff = LenEval._comb(la, lb, -1)
+            key = "zip/%s/%d" % (b.short, len([1 for b2, t2 in b.calls() if t2.callee.method == "zip" and b2 < bi]))
+            if diff == {}:
+                ck.ob(rule, key, True, "%s zips two sides of equal length (%s)" % (b.short, fmt_len(la)), where=b.where(t.line))
+            elif set(diff) == {()}:
+                ck.ob(rule, key, False, "%s zips %s elements with %s elements: the zip ends with the shorter side, %d element(s) of %s are never visited" % (b.short, fmt_len(la), fmt_len(lb), abs(diff[()]), what), where=b.where(t.line))
+            # a difference that depends on a collection length is not decided here
     return n
